@@ -170,6 +170,25 @@ Definition root_of_ievent (e : ievent) : option snapshot :=
 
 Definition max_epoch (l : list (Z * snpfile)) : Z := fold_left (fun m p => Z.max m (fst p)) l 0.
 
+(* the root a reopened writer starts from is the newest complete snapshot file of the directory
+   (loadSnapshots, writer.go:136-175: every loadable snapshot becomes the root in turn, oldest first) *)
+Definition load_agrees (d : disk) (r : snapshot) : bool :=
+  match lookup (sn_epoch r) (d_snp d) with
+  | Some f => (max_epoch (d_snp d) =? sn_epoch r) &&
+              list_eqb (pair_eqb Z.eqb zlist_eqb) (map (fun s => (ss_id s, ss_del s)) (sn_segs r)) (sf_segs f)
+  | None => false
+  end.
+
+(* a writer opened on existing snapshots (ps_epoch_n = []) replaces its root first by the loaded one,
+   and never loads again; a writer opened on an empty directory never loads *)
+Definition root_event_ok (epoch_n : list (Z * nat)) (d : disk) (e : ievent) (r : snapshot) : bool :=
+  match e, epoch_n with
+  | ELoad _, [] => load_agrees d r
+  | ELoad _, _ :: _ => false
+  | _, [] => false
+  | _, _ :: _ => true
+  end.
+
 (* the newest complete snapshot file that contains the batch at position `pos` *)
 Definition covered (st : pstate) (pos : nat) : bool :=
   existsb (fun ef => match lookup (fst ef) (ps_epoch_n st) with
@@ -186,7 +205,7 @@ Definition paccept_ev (table : list (list Z)) (st : pstate) (ev : pevent) : opti
       | Some t' =>
           match root_of_ievent e with
           | Some r =>
-              if segs_consistent (ps_segdocs st) r then
+              if segs_consistent (ps_segdocs st) r && root_event_ok (ps_epoch_n st) d e r then
                 Some {| ps_t := t'; ps_epoch_n := (sn_epoch r, length (t_keys t')) :: ps_epoch_n st;
                         ps_segdocs := learn_segs (ps_segdocs st) r; ps_disk := d; ps_pol := ps_pol st;
                         ps_base := (match e with ELoad _ => abs r | _ => ps_base st end);
@@ -219,6 +238,7 @@ Definition paccept_ev (table : list (list Z)) (st : pstate) (ev : pevent) : opti
              && same_docs content (content_at st n)
              && negb (existsb (fun ef => fst ef =? epoch) (d_snp d))
              && (max_epoch (d_snp d) <? epoch)
+             && negb (existsb if_snp (d_fly d))          (* one persister: at most one snapshot is being written *)
              && match loaded_ids table bytes with
                 | Some ids => list_eqbZ ids (map fst segs)
                 | None => false
@@ -231,9 +251,11 @@ Definition paccept_ev (table : list (list Z)) (st : pstate) (ev : pevent) : opti
       end
   | PPersistStart false id bytes _ =>
       (* a segment file is never written over a left-over file, and is rewritten (a retry after a failed
-         persist round) only while no complete snapshot names it: from here on the old content is gone *)
+         persist round) only while no complete snapshot and no snapshot being written names it: from here
+         on the old content is gone *)
       if negb (zmem id (d_junk_seg d))
          && negb (existsb (fun ef => zmem id (map fst (sf_segs (snd ef)))) (d_snp d))
+         && negb (existsb (fun f => if_snp f && zmem id (map fst (if_segs f))) (d_fly d))
       then Some (with_disk st (mkdisk d (d_snp d) (zremove id (d_seg d))
                                  ({| if_snp := false; if_id := id; if_bytes := bytes; if_segs := [] |} :: d_fly d)))
       else None
